@@ -59,6 +59,8 @@ type run struct {
 	reporters     sync.WaitGroup
 	fatalBack     atomic.Int64
 	dumpBuf       []byte
+	seqPending    atomic.Int64 // back-to-back watcher notifications not yet delivered (send not yet returned)
+	seqNotified   atomic.Int64
 	settleNs      atomic.Int64 // observation only
 	settles       atomic.Int64
 	polls         atomic.Int64
@@ -290,6 +292,50 @@ func (r *run) do(a Action, where string, from *comp) (delivered bool) {
 			r.log(event{Kind: "fire-skipped", Info: where + " " + a.Kind})
 			return false
 		}
+	case "wseq":
+		w := r.prov.seqStart()
+		if w == nil || !inCallback {
+			r.log(event{Kind: "wseq-skipped", Info: where + " " + a.String()})
+			return false
+		}
+		r.log(event{Kind: "wseq", Gen: from.gen, Name: from.name, Info: where + " " + a.String()})
+		r.seqPending.Add(int64(len(a.Seq)))
+		first := make(chan struct{})
+		go func() {
+			for i, k := range a.Seq {
+				var err error
+				if k == "error" {
+					err = errors.New("injected watch error")
+				}
+				pv, _ := driver.Catch(func() { w(&confmap.ChangeEvent{Error: err}) })
+				if pv != nil {
+					// the channel was closed under a pending notification: outside the provider contract, our fault
+					r.problem("harness-contract", fmt.Sprintf("watcher notification %d of %s met a closed channel: %v", i, a.String(), pv))
+				}
+				r.seqNotified.Add(1)
+				r.log(event{Kind: "notify-delivered", Info: k})
+				if k == "error" && pv == nil {
+					r.stopIssued.Store(true)
+					r.mustReturn.Store(true)
+				}
+				r.seqPending.Add(-1)
+				if i == 0 {
+					close(first)
+				}
+			}
+		}()
+		// the callback goes on once the first notification sits in the (empty) channel
+		for i := 0; ; i++ {
+			select {
+			case <-first:
+				return true
+			default:
+			}
+			if r.abandon.Load() {
+				return true
+			}
+			pause(i)
+		}
 	case "fatal":
 		n := a.N
 		if n < 1 {
@@ -414,7 +460,7 @@ func (r *run) settle() string {
 		// the dump is the snapshot; the flags are read after it (whatever they say then held at the snapshot
 		// too, because they only ever move one way while nothing is fired), and the log must not have moved
 		idle := quiet && r.loopIdle()
-		fatalSettled := r.fatalAccepted.Load() == 0 && r.fatalBack.Load() == r.fatalPlanned.Load()
+		fatalSettled := r.fatalAccepted.Load() == 0 && r.fatalBack.Load() == r.fatalPlanned.Load() && r.seqPending.Load() == 0
 		if idle && fatalSettled && r.steps.Load() == steps {
 			r.seenIdle.Store(true)
 			r.sigPending.Store(0)
